@@ -52,6 +52,9 @@ def main(families):
     from . import check_solver as cs
 
     bad = 0
+    import os
+
+    os.environ["VERIF_NOMINAL"] = "1"  # nominal geometry only: the pinned-switch model does not speak about inexact lengths
     for fam in families:
         if fam == "KMTypes":
             bad += km_types()
